@@ -106,14 +106,24 @@ Fixpoint set_nth (k : nat) (x : Z) (l : list Z) : list Z :=
   end.
 Definition getl (l : list Z) (k : Z) : Z := nth (Z.to_nat k) l 0.
 
-(* crange = 1..len(colors); misses = crange[colors != crange]; first miss or len+1 *)
+(* crange = np.arange(1, len(colors) + 1); misses = crange[colors != crange];
+   color = misses[0] if len(misses) else len(colors) + 1 *)
+Definition pick_from (colors : list Z) : Z :=
+  let crange := zrange 1 (length colors) in
+  let misses := map snd (filter (fun p => negb (fst p =? snd p)) (combine colors crange)) in
+  match misses with
+  | m :: _ => m
+  | [] => Z.of_nat (length colors) + 1
+  end.
+(* the same rule as a recursion (Proofs/ColorC15.v: pick_from_first_free) *)
 Fixpoint first_free (k : Z) (colors : list Z) : Z :=
   match colors with
   | [] => k
   | c :: r => if c =? k then first_free (k + 1) r else k
   end.
 
-(* colour chosen for one label given the sorted distinct colours of its neighbours *)
+(* colour chosen for one label given colors = np.unique(v_color[neighbors]):
+   if colors[0] == 0: (if len(colors) == 1: 1 else: colors = colors[1:]); then the misses rule *)
 Definition pick_color (colors : list Z) : Z :=
   match colors with
   | [] => 1                                     (* cannot happen: neighbours is non-empty *)
@@ -121,9 +131,9 @@ Definition pick_color (colors : list Z) : Z :=
       if c0 =? 0 then
         match rest with
         | [] => 1
-        | _ => first_free 1 rest
+        | _ => pick_from rest
         end
-      else first_free 1 colors
+      else pick_from colors
   end.
 
 (* rows are (count, index, label) *)
